@@ -356,3 +356,7 @@ def check(ctx, run):  # noqa: F811
     # hands them (N, T, F), and the step-by-step evaluation, which hands them (N, 1, F), cannot agree
     from .c02 import models_pointwise_in_time
     models_pointwise_in_time(ctx, run, rule="C03.R2m", causal_ok=False)
+    # R3h: the previous hedge a model sees is its own hedger's: hedger-level call histories (one hedger, two derivatives; two hedgers sharing
+    # their feature objects, bare and inside a ModuleOutput)
+    from ..registry import hedger_histories_rule
+    hedger_histories_rule(ctx, run, "C03.R3h")
